@@ -48,9 +48,11 @@ class JobModel:
         self.mod = self.cls.module
         self.fn = repo.method("Job", "evaluate", "job", own=True)
         ps = func_params(self.fn)
-        if len(ps) != 2:
+        n_def = len(self.fn.args.defaults)
+        if len(ps) < 2 or len(ps) - n_def > 2:
             raise AnalysisError("Job.evaluate signature changed: %r" % ps)
-        self.selfn, self.ind = ps
+        self.selfn, self.ind = ps[:2]
+        self.extra_params = ps[2:]        # optional switches: their guards are explored both ways
         loops = [s for s in self.fn.body if isinstance(s, (ast.For, ast.While))]
         self.loop = loops[0] if loops else None
         self.tries = [s for s in stmts_of(self.fn) if isinstance(s, ast.Try)]
